@@ -52,6 +52,11 @@ def run(ctx):
     r44(ctx, prog)
     r45(ctx, prog)
     r46(ctx, prog)
+    # R4.7 an assignment made by an expression is applied through every mutable entry point: each `_mut` (and context-free) typed or
+    # string-level entry point reaches the *mutable* root evaluator, once, with the context it was given (the base-call part of the C12
+    # entry-point analysis) - a typed `_mut` wrapper that calls the immutable evaluator answers ContextNotMutable and assigns nothing
+    from rules.c08 import r87
+    r87(ctx, prog, rule='R4.7', only_mut=True)
 
 
 def r46(ctx, prog):
